@@ -100,6 +100,35 @@ func loadProgram(repo, verifDir string) (*Prog, error) {
 			}
 		}
 	}
+	resolveAlias := func(fc *FuncContract, im string) string {
+		j := strings.LastIndex(im, ".")
+		if j < 0 {
+			return im
+		}
+		alias, name := im[:j], im[j+1:]
+		if _, ok := p.Pkgs[alias]; ok {
+			return im
+		}
+		if k := strings.LastIndex(alias, "."); k >= 0 && strings.HasPrefix(alias, fc.Spec.PkgPath) {
+			alias = alias[len(fc.Spec.PkgPath)+1:]
+		}
+		if pk, ok := p.Pkgs[fc.Spec.PkgPath]; ok {
+			for _, imp := range pk.Types.Imports() {
+				if imp.Name() == alias {
+					return imp.Path() + "." + name
+				}
+			}
+		}
+		return im
+	}
+	for _, fc := range p.CS.Funcs {
+		for i, im := range fc.Refines {
+			fc.Refines[i] = resolveAlias(fc, im)
+		}
+		if fc.Constructs != "" {
+			fc.Constructs = resolveAlias(fc, fc.Constructs)
+		}
+	}
 	return p, nil
 }
 
